@@ -391,7 +391,33 @@ def c06_h(ctx: Ctx):
                            "the bucket of the value index (or another operand's result) is changed, so a later condition on the same key in the same filter sees polluted data")
     out += no_memoisation(ctx, R, [IDX + ":_SearchIndexer.build_index", "signac.project:Project._build_index"],
                           "whether a job matches must depend only on the job's current data")
+    # the value index is rebuilt per queried key: the indexer keeps no per-instance store of indexes / results
+    ci = ctx.prog.cls(IDX + ":_SearchIndexer")
+    stores = []
+    for m in ci.methods.values():
+        for n in body_nodes(m):
+            if isinstance(n, ast.Assign):
+                for t in n.targets:
+                    if isinstance(t, ast.Attribute) and canon(t.value) == "self":
+                        stores.append((m, n, t.attr))
+                    if isinstance(t, ast.Subscript) and isinstance(t.value, ast.Attribute) and canon(t.value.value) == "self":
+                        stores.append((m, n, t.value.attr))
+            if isinstance(n, ast.Call) and isinstance(n.func, ast.Attribute) and n.func.attr == "setdefault" and isinstance(n.func.value, ast.Attribute) and canon(n.func.value.value) == "self":
+                stores.append((m, n, n.func.value.attr))
+    if stores:
+        m, n, a = stores[0]
+        out.append(ctx.viol(R, m, n, f"_SearchIndexer.{m.name} keeps state in self.{a}: indexes / result sets that outlive one condition are shared between the conditions of a filter "
+                            "(and between queries), so a set handed out for one condition can be seen - or changed - by another", construct=IDX + "|instance-state"))
+    else:
+        out.append(ctx.ok(R, None, None, "_SearchIndexer methods keep no per-instance state: every condition builds its own value index", construct=IDX + "|instance-state"))
     return out
 
 
-RULES = [c06_a, c06_b, c06_c, c06_d, c06_e, c06_f, c06_g, c06_h]
+@rule("C06-i")
+def c06_i(ctx: Ctx):
+    """None is the only 'no parent key' sentinel when nested keys are flattened (the empty string is a legal JSON key)."""
+    from .lints import sentinel_discipline
+    return sentinel_discipline(ctx, "C06-i", [("signac._utility:_nested_dicts_to_dotted_keys", "key", "the empty string is a legal key: treated as 'no parent' the keys below it are flattened without their prefix and collide with top-level keys")])
+
+
+RULES = [c06_a, c06_b, c06_c, c06_d, c06_e, c06_f, c06_g, c06_h, c06_i]
